@@ -16,7 +16,9 @@ LEVEL_TEXT = (
     'the key in ascending data, VLOOKUP = requested column of the first row with an equal key / #N/A / #VALUE! '
     'for a column outside the table, CHOOSE = v_i or #VALUE!. The model is tied to the code by a differential '
     'run (direct calls and formulas over real ranges): exhaustive short criteria strings over the alphabet '
-    '"<>=-1a ", every operator x operand x column, keys at every position, every column / CHOOSE index.')
+    '"<>=-1a ", every operator x operand x column, keys at every position, every column / CHOOSE index; the '
+    'formula route places the ranges at varying columns/rows/sheets and includes loaded workbooks with defined '
+    'names (for tables, columns, cells; some spelled like the text literals used as keys and criteria).')
 LEVEL_NOTE = (
     'Trusted: Lean kernel (propext, Classical.choice, Quot.sound); the hand model of the Python statements '
     '(validated by correspondence, not proved equal to the Python), in particular Python re for the regex '
@@ -36,6 +38,7 @@ TRUSTED = [
     'identity before ==; 64+ elements that are not one run are not modelled), validated against sorted() itself',
     'dateutil.parser (uninterpreted; operands it accepts are excluded), str.upper() on non-ASCII text',
     'pandas DataFrame construction / .values / .flat (row-major)',
+    'openpyxl writing the test workbooks (cells, formulas, defined names) that the archive route loads',
 ]
 ASSUMPTIONS = [
     'cells are numbers and non-empty texts (blank, boolean, numeric-text, date and error cells are compared with the '
@@ -51,6 +54,8 @@ ASSUMPTIONS = [
     'CHOOSE with a fractional index between n and n+1 is not constrained (Excel truncates, the code rejects)',
     'COUNTIFS with ranges of unequal length is not constrained (the code silently drops or mis-groups them)',
     'SUMIF/SUMIFS are excluded when the installed pandas has no DataFrame.applymap',
+    'defined names in the test workbooks are words of letters (no name that reads as a cell reference, a function '
+    'or differs from another name only in case); a text literal denotes its text whatever names exist',
 ]
 
 PREFIXES = ['', '=', '<>', '<', '<=', '>', '>=']
@@ -131,10 +136,11 @@ def col_letter(i):
 
 
 class Case:
-    __slots__ = ('kind', 'req', 'call', 'inp', 'formula')
+    __slots__ = ('kind', 'req', 'call', 'inp', 'formula', 'place')
 
     def __init__(self, kind, req, call, inp, formula=None):
         self.kind, self.req, self.call, self.inp, self.formula = kind, req, call, inp, formula
+        self.place = None
 
 
 def case_from_input(inp, F, arr):
@@ -251,7 +257,12 @@ def run(ctx):
         'and unequal lengths; MATCH: ascending/descending/unsorted columns with duplicates, keys at every position, '
         'between, below, above, absent, types 0/1/-1/default; VLOOKUP: keys at every row incl. duplicated and '
         'case-variant keys, absent keys, every column index 0..n+1, negative and fractional; CHOOSE: every index '
-        '0..n+1, fractional, negative, 255; each as a direct call and a sample through formulas over real ranges. '
+        '0..n+1, fractional, negative, 255; each as a direct call and a sample through formulas over real ranges '
+        'placed anywhere (first column A..AZ incl. tables straddling H|I, P|Q, Z|AA, AF|AG, rows beyond 1, other '
+        'sheets, quoted sheet names), plus workbooks written with openpyxl and loaded with read_and_parse_archive '
+        'that define names for the table, its columns and single cells - some spelled exactly like text literals '
+        '(keys, criteria, CHOOSE values) of the formulas -, data addressed by range or by name, 2-D and one-row '
+        'criteria ranges. '
         'Real result vs Spec (violation) and vs Lean model (drift). non-trivial = distinct request whose Spec '
         'result is constrained and is not 0 / #N/A' % (5 if thorough else 4))
 
@@ -262,8 +273,24 @@ def run(ctx):
 
     # ---------------------------------------------------------------- corpus / replay first
     for inp in load_inputs(ctx):
-        inp = {k: v for k, v in inp.items() if k not in ('route', 'formula')}
+        if inp.get('route') == 'workbook' and 'wb_table' in inp:
+            import tempfile
+            base = {k: v for k, v in inp.items() if k not in ('route', 'formula', 'place', 'names', 'wb_table')}
+            c = case_from_input(base, F, arr)
+            spec = parse_kv(ctx.driver.batch(['\t'.join(['C15'] + c.req)])[0])['spec']
+            with tempfile.TemporaryDirectory(prefix='c15wb') as tmp:
+                reals = eval_in_workbook(tmp, 'replay', inp['wb_table'], inp['names'], tuple(inp['place']),
+                                         [inp['formula']])
+            res.evaluations += 1
+            res.count('workbook:replay')
+            classify(res, inp, reals[0] if isinstance(reals, list) else 'X:' + type(reals).__name__, spec, spec,
+                     'formula in a loaded workbook with defined names')
+            continue
+        place = inp.get('place')
+        inp = {k: v for k, v in inp.items() if k not in ('route', 'formula', 'place')}
         cases.append(case_from_input(inp, F, arr))
+        if place:
+            cases[-1].place = tuple(place)
         res.count('corpus')
     replay_only = bool(ctx.replay)
 
@@ -561,10 +588,15 @@ def run(ctx):
     picked = fcases[::step]
     nform = 0
     for c, spec in picked:
-        built = build_formula(c.formula)
+        # the data sit anywhere on any sheet: first column A…AZ (tables straddling H|I, P|Q, Z|AA, AF|AG, …),
+        # rows beyond 1, another sheet than the formula's
+        place = c.place or random_place(rng)
+        built = build_formula(c.formula, place)
         if built is None:
             continue
         cells, target = built
+        res.count('place:' + ('A1' if place[1] == 0 and place[2] == 0 else 'offset')
+                  + ('' if place[0] == place[3] else '/other-sheet'))
         def ev(cells=cells, target=target):
             m = ModelCompiler().read_and_parse_dict(cells)
             return Evaluator(m).evaluate(target)
@@ -572,7 +604,7 @@ def run(ctx):
         nform += 1
         res.evaluations += 1
         res.count('formula:' + c.kind)
-        inp = {**c.inp, 'route': 'formula', 'formula': cells[target]}
+        inp = {**c.inp, 'route': 'formula', 'formula': cells[target], 'place': list(place)}
         classify(res, inp, real, spec, spec, 'formula over a real range')
     res.count('via_formula', nform)
 
@@ -609,6 +641,10 @@ def run(ctx):
             res.drift.append({'kind': 'MATCH formula over odd cells', 'formula': text, 'cells': repr(cells_),
                               'impl_model': impl, 'real': real})
 
+    # ================================================================ loaded workbooks with defined names
+    if not replay_only:
+        run_workbooks(ctx, res, thorough)
+
     # ================================================================ SUMIF / SUMIFS where pandas supports them
     if hasattr(pandas.DataFrame, 'applymap'):
         run_sumif(ctx, res, F, arr, cols, crits)
@@ -638,26 +674,52 @@ def classify(res, inp, real, impl, spec, route):
         res.drift.append({**{k: repr(v) for k, v in inp.items()}, 'impl_model': impl, 'real': real})
 
 
-def build_formula(f):
-    """cells of a model holding the data in real ranges and the formula in Z1"""
-    kind = f[0]
-    cells = {}
+def col_name(i):
+    """spreadsheet letters of a 0-based column index (A, …, Z, AA, …)"""
+    i += 1
+    out = ''
+    while i:
+        i, r = divmod(i - 1, 26)
+        out = chr(65 + r) + out
+    return out
 
-    def put_col(ci, col, r0=1):
+
+def sheet_ref(sheet):
+    return "'" + sheet.replace("'", "''") + "'" if not sheet.isalnum() else sheet
+
+
+# first columns (0-based) that make 2-4 column tables straddle H|I, P|Q, X|Y, Z|AA, AF|AG …, and a few plain ones
+PLACE_COLS = [0, 0, 1, 4, 5, 6, 7, 13, 14, 15, 21, 22, 23, 24, 25, 28, 29, 30, 31, 38, 47]
+PLACE_ROWS = [0, 0, 1, 4, 20, 63]
+PLACE_SHEETS = ['Sheet1', 'Sheet1', 'Data', 'My Data']
+
+
+def random_place(rng):
+    """where the data of a formula case is put: (data sheet, first column, first row offset, formula sheet)"""
+    sheet = rng.choice(PLACE_SHEETS)
+    c0 = rng.choice(PLACE_COLS) if rng.random() < 0.8 else rng.randint(0, 51)
+    return sheet, c0, rng.choice(PLACE_ROWS), rng.choice([sheet, 'Sheet1'])
+
+
+def build_formula(f, place=('Sheet1', 0, 0, 'Sheet1')):
+    """cells of a model holding the data in real ranges — on sheet `place[0]`, first column `place[1]`, row offset
+    `place[2]` — and the formula in CZ1 of sheet `place[3]`"""
+    kind = f[0]
+    sheet, c0, r0, fsheet = place
+    cells = {}
+    pre = '' if fsheet == sheet else sheet_ref(sheet) + '!'
+
+    def put_col(ci, col):
         for i, v in enumerate(col):
-            cells[f'Sheet1!{col_letter(ci)}{r0 + i}'] = v
-        return f'{col_letter(ci)}{r0}:{col_letter(ci)}{r0 + len(col) - 1}'
+            cells[f'{sheet}!{col_name(c0 + ci)}{r0 + 1 + i}'] = v
+        return f'{pre}{col_name(c0 + ci)}{r0 + 1}:{col_name(c0 + ci)}{r0 + len(col)}'
 
     if kind == 'COUNTIF':
         _, col, c = f
         rng_ = put_col(0, col)
-        if isinstance(c, str) and len(c) % 2 == 0:
-            cells['Sheet1!Y1'] = c if not c.startswith('=') else None
-            if cells['Sheet1!Y1'] is None:
-                del cells['Sheet1!Y1']
-                text = f'=COUNTIF({rng_},{lit(c)})'
-            else:
-                text = f'=COUNTIF({rng_},Y1)'
+        if isinstance(c, str) and len(c) % 2 == 0 and not c.startswith('='):
+            cells[f'{fsheet}!DA1'] = c                      # the criterion comes from a cell
+            text = f'=COUNTIF({rng_},DA1)'
         else:
             text = f'=COUNTIF({rng_},{lit(c)})'
     elif kind == 'COUNTIFS':
@@ -674,22 +736,170 @@ def build_formula(f):
         _, key, tb, col = f
         for i, row in enumerate(tb):
             for j, v in enumerate(row):
-                cells[f'Sheet1!{col_letter(j)}{i + 1}'] = v
-        text = f'=VLOOKUP({lit(key)},A1:{col_letter(len(tb[0]) - 1)}{len(tb)},{lit(col)},FALSE)'
+                cells[f'{sheet}!{col_name(c0 + j)}{r0 + 1 + i}'] = v
+        text = (f'=VLOOKUP({lit(key)},{pre}{col_name(c0)}{r0 + 1}:{col_name(c0 + len(tb[0]) - 1)}{r0 + len(tb)},'
+                f'{lit(col)},FALSE)')
     elif kind == 'CHOOSE':
         _, i, vals = f
         refs = []
         for j, v in enumerate(vals):
             if j % 2 == 0:
-                cells[f'Sheet1!A{j + 1}'] = v
-                refs.append(f'A{j + 1}')
+                cells[f'{sheet}!{col_name(c0)}{r0 + 1 + j}'] = v
+                refs.append(f'{pre}{col_name(c0)}{r0 + 1 + j}')
             else:
                 refs.append(lit(v))
         text = f'=CHOOSE({lit(i)},' + ','.join(refs) + ')'
     else:
         return None
-    cells['Sheet1!Z1'] = text
-    return cells, 'Sheet1!Z1'
+    cells[f'{fsheet}!CZ1'] = text
+    return cells, f'{fsheet}!CZ1'
+
+
+NAME_WORDS = ['apple', 'Pear', 'Total', 'zed', 'kiwi', 'Rent', 'Food', 'Labels']
+
+
+def eval_in_workbook(tmp, stem, tb, names, place, formulas):
+    """write the table (at `place`), the defined names and the formulas with openpyxl, load the file through
+    ModelCompiler.read_and_parse_archive and evaluate every formula; returns the canonical results (or the
+    exception that prevented loading)"""
+    import os
+    import openpyxl
+    from openpyxl.workbook.defined_name import DefinedName
+    from xlcalculator import ModelCompiler, Evaluator
+    sheet, c0, r0, fsheet = place
+    wb = openpyxl.Workbook()
+    ws = wb.active
+    ws.title = sheet
+    fs = ws if fsheet == sheet else wb.create_sheet(fsheet)
+    for i, row in enumerate(tb):
+        for j, v in enumerate(row):
+            ws.cell(row=r0 + 1 + i, column=c0 + 1 + j, value=v)
+    fcol = 100 if fsheet == sheet else 2
+    for i, t in enumerate(formulas):
+        fs.cell(row=i + 1, column=fcol, value=t)
+    for n_, target in names.items():
+        wb.defined_names[n_] = DefinedName(n_, attr_text=target)
+    path = os.path.join(tmp, stem + '.xlsx')
+    wb.save(path)
+    try:
+        ev = Evaluator(ModelCompiler().read_and_parse_archive(path))
+    except Exception as exc:  # noqa: BLE001
+        return exc
+    return [call_real(ev.evaluate, f'{fsheet}!{col_name(fcol - 1)}{i + 1}') for i in range(len(formulas))]
+
+
+def run_workbooks(ctx, res, thorough):
+    """Workbooks written with openpyxl and loaded through ModelCompiler.read_and_parse_archive: a table at a random
+    place of a random sheet, DEFINED NAMES for the table, its key column, a value column and single cells — some
+    of them spelled exactly like text keys / criteria / CHOOSE values that occur as text LITERALS in the
+    formulas — and formulas (on the same or another sheet) that address the data by explicit range or by name.
+    A text literal is a text whatever names the workbook defines; a name denotes its cells.  Expected values come
+    from the Lean Spec (the same requests as for direct calls)."""
+    import tempfile
+    rng = ctx.rng
+    nwb = 40 if thorough else 8
+    with tempfile.TemporaryDirectory(prefix='c15wb') as tmp:
+        for wi in range(nwb):
+            sheet, c0, r0, fsheet = random_place(rng)
+            if fsheet == sheet and rng.random() < 0.5:
+                fsheet = 'Calc'
+            nrows, w = rng.randint(2, 8), rng.randint(2, 4)
+            words = rng.sample(NAME_WORDS, 5)
+            kpool = rng.choice([words[:4] + [w_.upper() for w_ in words[:2]], words[:3] + [1, 2, 3], [1, 2, 3, 5, 2.5]])
+            vpool = NUM_CELLS[:8] + words + ['b', 'Kiwi Fruit']
+            tb = [[rng.choice(kpool)] + [rng.choice(vpool) for _ in range(w - 1)] for _ in range(nrows)]
+            top, bottom = r0 + 1, r0 + nrows
+            pre = '' if fsheet == sheet else sheet_ref(sheet) + '!'
+            abs_ = lambda c, r: f'${col_name(c)}${r}'                          # noqa: E731
+            full = lambda c1, r1, c2, r2: f'{sheet_ref(sheet)}!{abs_(c1, r1)}:{abs_(c2, r2)}'   # noqa: E731
+            names = {'Tbl': full(c0, top, c0 + w - 1, bottom), 'Keys': full(c0, top, c0, bottom),
+                     'Col2': full(c0 + 1, top, c0 + 1, bottom)}
+            # names spelled exactly like texts that occur in the table / in the formulas (one per word, any case)
+            for word in words[:rng.randint(2, 4)]:
+                if rng.random() < 0.5:
+                    names[word] = f'{sheet_ref(sheet)}!{abs_(c0 + rng.randrange(w), rng.randint(top, bottom))}'
+                else:
+                    cj = c0 + rng.randrange(w)
+                    names[word] = full(cj, top, cj, bottom)
+            cellname = next((n for n, v in names.items() if ':' not in v), None)
+            rng_tbl = rng.choice([f'{pre}{col_name(c0)}{top}:{col_name(c0 + w - 1)}{bottom}', 'Tbl'])
+            colref = lambda j: f'{pre}{col_name(c0 + j)}{top}:{col_name(c0 + j)}{bottom}'      # noqa: E731
+            rowref = lambda i: f'{pre}{col_name(c0)}{top + i}:{col_name(c0 + w - 1)}{top + i}'  # noqa: E731
+            column = lambda j: [row[j] for row in tb]                          # noqa: E731
+            items = []      # (formula text, driver request, input description)
+            keys = list(dict.fromkeys((type(r[0]).__name__, r[0]) for r in tb))
+            keys = [k for _, k in keys] + [x for x in words if x not in column(0)][:2] + [77]
+            keys += [k.swapcase() for k in keys if isinstance(k, str)][:2]
+            for key in keys:
+                for col in range(0, w + 2):
+                    items.append((f'=VLOOKUP({lit(key)},{rng_tbl},{col},FALSE)',
+                                  ['vlookup', wv(key), wrows(tb), wv(col), 'B:0'],
+                                  {'fn': 'VLOOKUP', 'lookup': key, 'table': tb, 'col': col, 'range_lookup': False}))
+                kref = rng.choice([colref(0), 'Keys'])
+                for mt in (0, 1):
+                    items.append((f'=MATCH({lit(key)},{kref},{mt})',
+                                  ['match', wv(key), wrows([[x] for x in column(0)]), wv(mt)],
+                                  {'fn': 'MATCH', 'lookup': key, 'array': column(0), 'match_type': mt}))
+            crit_words = words + [x for x in column(0) if isinstance(x, str)][:2]
+            crits = [p_ + o for o in crit_words for p_ in ('', '=', '<>', '>=')] + ['>1', '<=2', '<>2', 2, 1]
+            for c in rng.sample(crits, 14):
+                j = rng.randrange(w)
+                ref = 'Keys' if j == 0 and rng.random() < 0.5 else 'Col2' if j == 1 and rng.random() < 0.5 else colref(j)
+                items.append((f'=COUNTIF({ref},{lit(c)})', ['countif', wv(c), wflat(column(j))],
+                              {'fn': 'COUNTIF', 'range': column(j), 'criteria': c}))
+                flat = [x for row in tb for x in row]
+                items.append((f'=COUNTIF({rng_tbl},{lit(c)})', ['countif', wv(c), wflat(flat)],
+                              {'fn': 'COUNTIF', 'range': tb, 'criteria': c}))
+                c2 = rng.choice(crits)
+                j2 = rng.randrange(w)
+                items.append((f'=COUNTIFS({colref(j)},{lit(c)},{colref(j2)},{lit(c2)})',
+                              ['countifs', wflat(column(j)), wv(c), wflat(column(j2) + [c2])],
+                              {'fn': 'COUNTIFS', 'pairs': [(column(j), c), (column(j2), c2)]}))
+                i1, i2 = rng.randrange(nrows), rng.randrange(nrows)           # one-row ranges, position by position
+                items.append((f'=COUNTIFS({rowref(i1)},{lit(c)},{rowref(i2)},{lit(c2)})',
+                              ['countifs', wflat(tb[i1]), wv(c), wflat(tb[i2] + [c2])],
+                              {'fn': 'COUNTIFS', 'pairs': [(tb[i1], c), (tb[i2], c2)]}))
+            for _ in range(6):
+                n = rng.randint(1, 4)
+                vals, refs = [], []
+                for _ in range(n):
+                    kind = rng.random()
+                    if kind < 0.5:                                    # a text literal, often spelled like a name
+                        v = rng.choice(words + ['x'])
+                        vals.append(v)
+                        refs.append(lit(v))
+                    elif kind < 0.75 and cellname:                    # the name of a cell: its value
+                        addr = names[cellname].replace('$', '').rsplit('!', 1)[1]
+                        cj = next(j for j in range(w) if addr.startswith(col_name(c0 + j))
+                                  and addr[len(col_name(c0 + j)):].isdigit())
+                        vals.append(tb[int(addr[len(col_name(c0 + cj)):]) - top][cj])
+                        refs.append(cellname)
+                    else:
+                        i_, j_ = rng.randrange(nrows), rng.randrange(w)
+                        vals.append(tb[i_][j_])
+                        refs.append(f'{pre}{col_name(c0 + j_)}{top + i_}')
+                for i in range(0, n + 2):
+                    items.append((f'=CHOOSE({i},' + ','.join(refs) + ')', ['choose', wv(i), wflat(vals)],
+                                  {'fn': 'CHOOSE', 'index': i, 'values': vals}))
+            resp = ctx.driver.batch(['\t'.join(['C15'] + req) for _, req, _ in items])
+            todo = [(t, parse_kv(r)['spec'], inp) for (t, _, inp), r in zip(items, resp) if parse_kv(r).get('spec', '-') != '-']
+            reals = eval_in_workbook(tmp, f'wb{wi}', tb, names, (sheet, c0, r0, fsheet), [t for t, _, _ in todo])
+            if isinstance(reals, Exception):
+                res.violations.append({'what': 'a workbook with a lookup table and defined names does not load',
+                                       'input': {'table': tb, 'names': names, 'sheet': sheet}, 'expected': 'a model',
+                                       'got': repr(reals)})
+                continue
+            for (t, spec, inp), real in zip(todo, reals):
+                res.evaluations += 1
+                res.count('workbook:' + inp['fn'])
+                if any(n_ in t for n_ in names):
+                    res.count('workbook:mentions-a-name-or-its-spelling')
+                if spec not in ('I:0', 'E:NA'):
+                    res.nontrivial.add('wb\t' + t + '\t' + repr(tb))
+                classify(res, {**inp, 'route': 'workbook', 'formula': t, 'names': names, 'wb_table': tb,
+                               'place': [sheet, c0, r0, fsheet]}, real, spec, spec,
+                         'formula in a loaded workbook with defined names')
+            res.count('workbooks')
 
 
 def run_sumif(ctx, res, F, arr, cols, crits):
